@@ -537,8 +537,12 @@ class C11(Machine):
             except dperror.TaxonNamespaceReconstructionError:
                 if collide and st["unify"]:
                     rec.probe("documented_reconstruction_collision")
-                    # a documented refusal; the matrix may be half-way: re-create it to keep the history meaningful
-                    self.mats[st["l"] % len(self.mats)] = type(M)(taxon_namespace=M.taxon_namespace)
+                    # a documented refusal: the matrix still holds every sequence, and (checked after the step, like after
+                    # any other) every sequence sits on a member taxon of the namespace the matrix refers to
+                    if sorted(t.label for t in M._taxon_sequence_map) != sorted(labels):
+                        rec.violation("TAXON_LOST", {"op": op + ":refused"}, "%s was refused, sequence labels %s became %s" % (
+                            op, sorted(labels), sorted(t.label for t in M._taxon_sequence_map)))
+                        raise StopRun()
                     return "refused"
                 raise
             if st["unify"]:
@@ -566,7 +570,7 @@ class C11(Machine):
                 att = ds.attached_taxon_namespace
                 if att is not None and _collide(labels_before, att.is_case_sensitive):
                     rec.probe("documented_reconstruction_collision")
-                    raise StopRun()     # documented refusal; the matrix may be half-way migrated: end this history
+                    return "refused"    # documented refusal: the step invariant decides whether matrix and data set are still sound
                 raise
             return "imported"
         if op == "ds_new_tree_list":
